@@ -61,6 +61,20 @@ CHECKS = {
              'and truncation / bit-flip / zeroed-page damage of the cache files.',
         note='Crash model = every prefix of the writer syscall sequence (page cache survives SIGKILL), not torn writes or power loss; '
              'behaviour compared on a probe battery from my AST.'),
+    'C14': dict(
+        category='exploration', design_ref='DESIGN.md 4 C14',
+        technique='runtime monitoring: metamorphic oracle over token-preserving re-layouts (own X.680 scanner, every layout re-scanned) and error-position comparison with a comment-free twin',
+        text='Fixture files and generated modules are re-laid-out with random white-space/comment separators between the same lexical items; '
+             'parse_string must accept and return the identical dictionary; texts with one injected syntax error must blame the same place of the '
+             'token sequence in every layout and report the same line as the layout with comments blanked.',
+        note='Trusts my scanner (layouts that do not re-scan to the same tokens are discarded); multi-word keyword gaps are a known finding.'),
+    'C19': dict(
+        category='exploration', design_ref='DESIGN.md 4 C19',
+        technique='runtime monitoring: metamorphic oracle across meaning-preserving AST rearrangements (permute, split+IMPORTS, inline, extract) for 8 codecs',
+        text='Arrangements are derived from my AST by transformations that preserve meaning by construction; the bytes and decoded values of every '
+             'original top-level type are compared between the original and each arrangement for all codecs.',
+        note='Same-module inlining only, tags stay at the use site; compiler crashes (non-asn1tools exceptions) on an arrangement are counted, '
+             'library CompileError is a violation.'),
 }
 
 NOT_YET = 'check under construction in this revision (DESIGN.md section 4); not claimed yet'
